@@ -131,8 +131,11 @@ def loop_shape(cls, name, pre_name, base_cls):
     zero_init = set()
     one_init = set()
     loop = None
+    abuf_name = None
     for st in body:
         if isinstance(st, ast.Assign) and len(st.targets) == 1:
+            if loop is not None:
+                raise Unsupported("%s: assignment after the loop" % name)
             t, v = st.targets[0], st.value
             if isinstance(t, ast.Tuple) and _is_self_call(v, pre_name):
                 if len(t.elts) != len(roles):
@@ -335,6 +338,16 @@ def loop_shape(cls, name, pre_name, base_cls):
         raise Unsupported("%s: loop statement %s" % (name, ast.unparse(st)[:80]))
     if len(set(counters)) != len(counters):
         raise Unsupported("%s: blocks share a counter" % name)
+    # where the state of a login lives: the counters the blocks increment and test, the login buffer and the
+    # return attempts are plain local names bound by a constant assignment in the function's preamble (so every
+    # call starts from 0 / b"" / 1) -- not parameters, not attributes of the channel object, not globals
+    attempts = sorted({n.id for n in ast.walk(loop) if isinstance(n, ast.Name) and n.id in one_init})
+    state_names = list(counters) + [abuf_name] + attempts
+    preamble = zero_init | one_init | ({abuf_name} if abuf_name else set())
+    declared = [n for n in ast.walk(f) if isinstance(n, (ast.Global, ast.Nonlocal))]
+    facts["state_local"] = bool(counters) and not declared and \
+        all(n is not None and n in preamble and n not in params for n in state_names)
+    facts["state_names"] = state_names
     return {"async": is_async, "steps": steps, "blocks": blocks, "facts": facts}
 
 
@@ -503,6 +516,7 @@ def generate(outdir):
             info["loops"][label] = {"unsupported": str(e)}
             lines.append("(* %s: shape not recognised *)" % label)
             lines.append("Definition gen_loop_%s : skel := mkSkel [] [] false false false false false false false." % label)
+            lines.append("Definition gen_state_local_%s : bool := false." % label)
             continue
         info["loops"][label] = {"steps": sh["steps"], "facts": sh["facts"],
                                 "blocks": [{k: v for k, v in b.items() if k not in ("counter", "limit_counter")} for b in sh["blocks"]]}
@@ -517,6 +531,11 @@ def generate(outdir):
             label, "; ".join(str(s) for s in steps), ";\n   ".join(bl), coq_bool(fx["handler"]), coq_bool(fx["acc_lower"]),
             coq_bool(fx["kick"]), coq_bool(fx["catches"]), coq_bool(fx["err_return"]), coq_bool(fx["err_counts"]),
             coq_bool(fx["expire_empty"])))
+        lines.append("(* counters, login buffer and return attempts are locals initialised by every call: %s *)" % ", ".join(fx["state_names"]))
+        lines.append("Definition gen_state_local_%s : bool := %s." % (label, coq_bool(fx["state_local"])))
+    lines.append("(* what a login call on a channel object inherits from the earlier ones *)")
+    lines.append("Definition gen_counter_scope : cscope :=\n  if andb (andb gen_state_local_telnet_sync gen_state_local_telnet_async) "
+                 "(andb gen_state_local_ssh_sync gen_state_local_ssh_async) then CsLocal else CsObject.")
     lines.append("(* the login configuration of the current tree: prompt pattern, credentials and interval are parameters *)")
     lines.append("Definition gen_cfg (k : lkind) (prompt : re) (user pass phrase : bytes) (interval : N) : cfg :=\n"
                  "  re_cfg k gen_re_login gen_re_password gen_re_passphrase prompt gen_fatal_lower gen_fatal_raw\n"
